@@ -52,6 +52,8 @@ def showRow (r : Row) : String :=
 def parseRow (s : String) : Option Row :=
   match s.splitOn ":" with
   | [t, k, a, b, c, d] => do
+    -- (a trailing `u` / `f` only says which time zone the harness gives the instant: no effect on the spec)
+    let t := if t.endsWith "u" || t.endsWith "f" then (t.dropEnd 1).toString else t
     let ts ← if t == "z" then some none else (Wire.parseInt t).map some
     let k ← Wire.parseNat k
     let a ← Wire.parseNat a; let b ← Wire.parseNat b; let c ← Wire.parseNat c; let d ← Wire.parseNat d
